@@ -301,7 +301,7 @@ def left_null_space(sto, ns, nr):
 # ---------------------------------------------------------------------------------------------
 # running a script on the rebuilt engine (inside the sandboxed child) — shared by C07 / C02
 # ---------------------------------------------------------------------------------------------
-def child_run(case, lib):
+def child_run(case, lib, eng=None):
     """case: {"net","space","option","seed","dt","tmax","max_iter","state"(optional species-major override),
     "mode"(init_state_processing, optional)} -> samples, times, draws after initialisation, marshalled arrays"""
     import numpy as np
@@ -316,7 +316,8 @@ def child_run(case, lib):
     option = case["option"]
     script = st.RDScript(system, t_sample=[0], time_step=case["dt"], t_max=case["tmax"], sampling_policy="on_iteration",
                          rng_seed=case["seed"], init_state_processing=case.get("mode", "auto"))
-    eng = LibRDEngine(lib, option=option, requires_molecules=(option != "euler"))
+    if eng is None:
+        eng = LibRDEngine(lib, option=option, requires_molecules=(option != "euler"))
     common.draws_clear(lib)
     eng.setup(script)
     n_init = len(common.draws_get(lib))
